@@ -556,6 +556,8 @@ def _gen_spec_once(rng, pf):
         for p in pars:
             if p["db"] and not p["timed"] and p["format"] != "duration" and rng.random() < 0.3:
                 yfactors[p["name"]] = {pop: _choice(rng, [0.3, 1.0, 2.5] if p["format"] == "proportion" else [0.0, 0.3, 1.0, 2.5]) for pop in pops}
+            elif p["db"] and (p["timed"] or p["format"] == "duration") and rng.random() < 0.5:
+                yfactors[p["name"]] = {pop: _choice(rng, [0.3, 1.0, 2.5, 4.0]) for pop in pops}  # calibrated durations (also of timed compartments)
 
     for it in interactions:
         it["entries"] = [[a, b, {"a": _choice(rng, [0.0, 1.0, 0.5, _f(rng.uniform(0, 3))])}] for a in pops for b in pops]
